@@ -1,9 +1,76 @@
 """C03 - structural invariants of returned segments (see checks/engine_common.py and harness/common.cpp: project)."""
+import json, os, random
+import vlib
 from checks import engine_common, utfcommon
+
+
+def reverse_slots(ck, tier, seed):
+    """spec/ReverseSlots.tla: the in-place reversal every segment shaped against its font's direction goes through,
+    checked by TLC on every sequence of bases and marks, replayed on the real routine (hook event 8) and validated."""
+    tmp = vlib.tmpdir("C03rev")
+    q = tier == "quick"
+    r = vlib.tlc("ReverseSlots.tla", "ReverseSlots.cfg", timeout=3000, coverage=False)
+    if r.violation:
+        ck.violation("TLC: %s violated in ReverseSlots" % r.violation, {"why": "ReverseSlots model", "trace": vlib.tlc_error_trace(r.out)})
+        return
+    ck.add_tlc("ReverseSlots(all sequences of bases and marks up to 8)", r)
+    rn = vlib.tlc("ReverseSlots.tla", "ReverseSlots_neg.cfg", timeout=900, coverage=False)
+    if rn.violation != "Correct":
+        raise vlib.Broken("negative control ReverseSlots_neg (tail not updated) not refuted: %r" % rn.violation)
+    out = os.path.join(tmp, "cases.ndjson")
+    re = vlib.tlc("ReverseSlots.tla", "ReverseSlots_emit.cfg", out_file=out, timeout=3000, coverage=False)
+    if re.violation or not re.emitted:
+        raise vlib.Broken("ReverseSlots emitted no sequences (%r)" % re.violation)
+    # the font: glyph 'f' has bidi class 16, the single rule changes nothing; left-to-right
+    from fontgen import gfont, gdl
+    keep = dict(op="keep", cls=0, ref=0, adv=-1, user=-1, user2=-1, shift=-1, att=-1, attref=-1, sf=0, sv=0)
+    none = {"kind": "none", "item": 0, "val": 0, "f": 0}
+    traces = []
+    for kind in ("sub", "pos"):
+        prog = [{"kind": kind, "rules": [{"pre": 0, "ctx": [1], "items": [keep], "con": none, "ret": 0}]}]
+        m = gdl.font_model(prog, [[1]], [0, 500, 600, 450, 700, 300, 0], [0] * 7, 0)
+        m["glyphs"][6]["attrs"][gfont.A_BIDI] = 16
+        font = os.path.join(tmp, "rev_%s.ttf" % kind)
+        open(font, "wb").write(gfont.build_font(m))
+        trace = os.path.join(tmp, "rev_%s.ndjson" % kind)
+        exe = vlib.build_harness("san")
+        h = vlib.run_harness(exe, ["revslots", out, font, trace], timeout=3000)
+        vlib.absorb(ck, h, pid="C03")
+        if h.fault or not h.summary:
+            return
+        if h.summary["extra"]["reverse_calls"] == 0:
+            raise vlib.Broken("vacuous: Segment::reverseSlots was never called in the replay")
+        ck.traces += h.summary["extra"]["segments"]
+        ck.extra.setdefault("impl", {})["reverse_slots/" + kind] = h.summary["extra"]
+        rv = vlib.tlc("ReverseSlotsTrace.tla", "ReverseSlotsTrace.cfg", workers=1, env={"TRACE": trace}, timeout=3000, coverage=False)
+        if rv.violation:
+            lines = open(trace).read().splitlines()
+            k = min(max(rv.states - 1, 0), len(lines) - 1)
+            s0 = max(j for j in range(k + 1) if lines[j].startswith('{"e":"Case"'))
+            ck.violation("the stream after Segment::reverseSlots is not the specified reversal: %s then %s" % (lines[s0][:120], lines[k][:120]),
+                         {"why": "trace rejected by ReverseSlotsTrace", "events": lines[s0:k + 1]})
+            return
+        ck.add_tlc("ReverseSlotsTrace(%s pass font, %d events)" % (kind, rv.states - 1), rv)
+        traces.append(trace)
+    # binding: swap two slots in one recorded reversal -> rejected
+    lines = open(traces[0]).read().splitlines()
+    cand = [i for i, l in enumerate(lines) if l.startswith('{"e":"Rev"') and len(json.loads(l)["order"]) >= 3]
+    if cand:
+        i = random.Random(seed).choice(cand)
+        o = json.loads(lines[i]); o["order"][0], o["order"][1] = o["order"][1], o["order"][0]
+        s0 = max(j for j in range(i + 1) if lines[j].startswith('{"e":"Case"'))
+        bad = os.path.join(tmp, "corrupt.ndjson")
+        open(bad, "w").write("\n".join(lines[s0:i] + [json.dumps(o, separators=(",", ":"))]) + "\n")
+        rb = vlib.tlc("ReverseSlotsTrace.tla", "ReverseSlotsTrace.cfg", workers=1, env={"TRACE": bad}, timeout=900, coverage=False)
+        if not rb.violation:
+            raise vlib.Broken("binding lost: a recorded reversal with two slots swapped was accepted")
+        ck.extra["binding_demo_reverse"] = "a Rev event with two slots swapped is rejected by ReverseSlotsTrace"
 
 
 def run(ck, tier, seed):
     engine_common.run_engine(ck, tier, seed, pids=("C03",))
     # texts in all three encodings, with NULs before nChars and ill-formed sequences (spec/UtfText.tla): same invariant
     utfcommon.utftext(ck, tier, seed, props=("C03",))
+    if not ck.violations:
+        reverse_slots(ck, tier, seed)
     ck.assumptions += ["the invariant is evaluated through the public API on every segment of wild programs, GDL-lite programs (all 8 direction values) and the corpus"]
